@@ -1,6 +1,7 @@
 package main
 
 import (
+	"bytes"
 	"context"
 	"errors"
 	"fmt"
@@ -25,6 +26,7 @@ type light struct {
 	stops atomic.Int64
 	rwcs  atomic.Int64
 	runs  atomic.Int64
+	goid  atomic.Int64 // goroutine that last entered Run
 	rel   chan error
 }
 
@@ -36,6 +38,7 @@ func (l *light) Run(ctx context.Context) error {
 	l.mu.Lock()
 	ch := l.ch
 	l.mu.Unlock()
+	l.goid.Store(curGoid())
 	l.runs.Add(1)
 	select {
 	case <-ctx.Done():
@@ -236,8 +239,42 @@ func errclass(n int, seed uint64) {
 	}
 }
 
-// observeFilter runs a composite with one child that returns e; "P <cls>" if Run returned,
-// "F" if the exit was filtered (Run kept running until a second child failed with L11).
+func curGoid() int64 {
+	var buf [64]byte
+	n := runtime.Stack(buf[:], false)
+	f := strings.Fields(string(buf[:n])) // "goroutine 123 [running]:"
+	if len(f) < 2 {
+		return -1
+	}
+	id, _ := strconv.ParseInt(f[1], 10, 64)
+	return id
+}
+
+// waitGone waits until goroutine id no longer exists.
+func waitGone(id int64, d time.Duration) bool {
+	needle := []byte("goroutine " + strconv.FormatInt(id, 10) + " [")
+	deadline := time.Now().Add(d)
+	buf := make([]byte, 1<<20)
+	for {
+		n := runtime.Stack(buf, true)
+		for n == len(buf) {
+			buf = make([]byte, 2*len(buf))
+			n = runtime.Stack(buf, true)
+		}
+		if !bytes.Contains(buf[:n], needle) {
+			return true
+		}
+		if time.Now().After(deadline) {
+			return false
+		}
+		time.Sleep(100 * time.Microsecond)
+	}
+}
+
+// observeFilter runs a composite with two children; child a returns e.  Once a's goroutine has
+// finished (so its report, if any, is in the error channel) child b fails with L11: Run()'s result
+// wraps L11 iff a's exit was filtered ("F"); otherwise it is a's error ("P <cls>").  No timing
+// assumption: the channel is FIFO and Run() reads one value.
 func observeFilter(e error) string {
 	a, b := newLight("a"), newLight("b")
 	cb := func() (*composite.Config[supervisor.Runnable], error) {
@@ -255,20 +292,25 @@ func observeFilter(e error) string {
 	for !r.IsRunning() || a.runs.Load() == 0 || b.runs.Load() == 0 {
 		time.Sleep(50 * time.Microsecond)
 	}
+	ga := a.goid.Load()
 	a.rel <- e
+	if !waitGone(ga, 5*time.Second) {
+		return "H"
+	}
 	select {
+	case b.rel <- sentinels[11]:
 	case re := <-done:
 		return "P " + strings.ReplaceAll(classifyRes(re), " ", "_")
-	case <-time.After(25 * time.Millisecond):
+	case <-time.After(5 * time.Second):
+		return "H"
 	}
-	b.rel <- sentinels[11]
 	select {
 	case re := <-done:
 		if errors.Is(re, sentinels[11]) {
 			return "F"
 		}
 		return "P " + strings.ReplaceAll(classifyRes(re), " ", "_")
-	case <-time.After(2 * time.Second):
+	case <-time.After(5 * time.Second):
 		return "H"
 	}
 }
